@@ -547,6 +547,7 @@ struct Harness
             return (o.code == S_CAT ? a_str_cat(s, L.aux) : a_str_cat_(s, L.aux)) == A_OMEMORY;
         }
         case S_SETM: return a_str_setm(s, (a_size)o.a) == A_OMEMORY;
+        case S_EXIT: return a_str_exit(s) == nullptr; // needs room for the terminator when the content fills the capacity
         case S_UTF_CATC: return a_utf_catc(s, (a_u32)o.a) == A_OMEMORY;
         case S_CATF: return do_catf(s, o.a, o.b, expect) == 0;
         case S_SWAP: { a_str *x = a_str_new(); if (x) { a_str_die(x); } return x == nullptr; }
@@ -559,7 +560,6 @@ struct Harness
     {
         for (const xs::Op &o : menu(key))
         {
-            if (o.code == S_EXIT) { continue; }
             long requests;
             std::string succ_key;
             {
